@@ -1162,6 +1162,9 @@ func (un *Unit) applyContract(fr *Frame, st *State, fc *FuncContract, names []st
 		if cl.Kind != "ensures" {
 			continue
 		}
+		if strings.Contains(cl.Text, "ret(") {
+			continue // speaks about the callee's internal calls: checked there, meaningless to a caller
+		}
 		t, _ := un.evalSpec(cl.E, post)
 		un.assume(st, t)
 	}
